@@ -99,3 +99,7 @@ pub mod bbsplus;
 #[cfg(feature = "cl03")]
 #[doc(hidden)]
 pub mod cl03;
+#[cfg(feature = "verif_hooks")]
+#[doc(hidden)]
+#[allow(missing_docs)]
+pub mod verif_hooks;
